@@ -119,7 +119,63 @@ class IfCont(ast.NodeTransformer):
     visit_While = _loop
 
 
-TRANSFORMS = {"rename": Rename, "augassign": Aug, "compare": Cmp, "notin": NotIn, "ifcont": IfCont}
+# ------------------------------------------------------------------ more spellings
+class EqSwap(ast.NodeTransformer):
+    """`a == b` -> `b == a`, `a != b` -> `b != a`  (names / attributes / subscripts / constants only: no evaluation-order effects)"""
+    def visit_Compare(self, n):
+        self.generic_visit(n)
+        if len(n.ops) == 1 and isinstance(n.ops[0], (ast.Eq, ast.NotEq)) and isinstance(n.left, SIMPLE) and isinstance(n.comparators[0], SIMPLE):
+            return ast.copy_location(ast.Compare(left=n.comparators[0], ops=n.ops, comparators=[n.left]), n)
+        return n
+
+
+class IfSwap(ast.NodeTransformer):
+    """`if c: A else: B` -> `if not c: B else: A`  (plain if/else only, no elif chains)"""
+    def visit_If(self, n):
+        self.generic_visit(n)
+        if n.orelse and not (len(n.orelse) == 1 and isinstance(n.orelse[0], ast.If)):
+            return ast.copy_location(ast.If(test=ast.UnaryOp(op=ast.Not(), operand=n.test), body=n.orelse, orelse=n.body), n)
+        return n
+
+
+class LambdaRename(ast.NodeTransformer):
+    def visit_Lambda(self, n):
+        self.generic_visit(n)
+        ren = {a.arg: a.arg + "_l" for a in n.args.args}
+        for a in n.args.args:
+            a.arg = ren[a.arg]
+        for x in ast.walk(n.body):
+            if isinstance(x, ast.Name) and x.id in ren:
+                x.id = ren[x.id]
+        return n
+
+
+class AugBack(ast.NodeTransformer):
+    """`x = x + 1` -> `x += 1` for plain names and integer literals"""
+    def visit_Assign(self, n):
+        if len(n.targets) == 1 and isinstance(n.targets[0], ast.Name) and isinstance(n.value, ast.BinOp) and isinstance(n.value.op, (ast.Add, ast.Sub)) \
+                and isinstance(n.value.left, ast.Name) and n.value.left.id == n.targets[0].id and isinstance(n.value.right, ast.Constant) \
+                and isinstance(n.value.right.value, int):
+            return ast.copy_location(ast.AugAssign(target=ast.Name(id=n.targets[0].id, ctx=ast.Store()), op=n.value.op, value=n.value.right), n)
+        return n
+
+
+class ElifNest(ast.NodeTransformer):
+    """`if a: A elif b: B else: C` is already nested in the AST; here: `if a: return X` + rest  ->  `if a: return X else: rest`
+    at function top level (early return turned into an else branch)"""
+    def visit_FunctionDef(self, fn):
+        self.generic_visit(fn)
+        body = fn.body
+        for i, st in enumerate(body):
+            if isinstance(st, ast.If) and not st.orelse and st.body and isinstance(st.body[-1], (ast.Return, ast.Raise)) and i + 1 < len(body) \
+                    and i > 0:
+                fn.body = body[:i] + [ast.copy_location(ast.If(test=st.test, body=st.body, orelse=body[i + 1:]), st)]
+                break
+        return fn
+
+
+TRANSFORMS = {"rename": Rename, "augassign": Aug, "compare": Cmp, "notin": NotIn, "ifcont": IfCont,
+              "eqswap": EqSwap, "ifswap": IfSwap, "lambda": LambdaRename, "augback": AugBack, "earlyelse": ElifNest}
 
 
 def build_overlay(base, T):
